@@ -729,22 +729,29 @@ Qed.
 
 Lemma serve_ext_dispatched rules : forall i p r,
   In r rules -> rule_matches cs r p = true -> allowed cs r p = true ->
-  stat_ok (trim_right p) = true ->
   r_ext r <> [] -> last_byte (r_ext r) <> Some SLASH ->
   has_suffix (to_lower (trim_right p)) (to_lower (r_ext r)) = true ->
   can_split cs r (trim_right p) = true ->
   exists j, serve cs stat_ok open_ok rules i p = ODispatch j (trim_right p).
 Proof.
-  induction rules as [|r0 rules IH]; intros i p r Hin Hm Ha Hst Hext Hlast Hsuf Hsplit; [contradiction|].
+  induction rules as [|r0 rules IH]; intros i p r Hin Hm Ha Hext Hlast Hsuf Hsplit; [contradiction|].
   destruct (suffix_last _ _ Hext Hlast Hsuf) as (c & Hc & Hcs).
-  cbn [serve]. rewrite (index_file_none _ _ c Hc Hcs). rewrite Hst. cbn [negb]. rewrite Hc.
-  assert (c =? SLASH = false) as -> by (apply N.eqb_neq; exact Hcs). cbn [orb].
-  destruct Hin as [-> | Hin].
-  - rewrite Hm, Ha, Hsplit, Hsuf. cbn [negb]. eexists; reflexivity.
-  - destruct (negb (rule_matches cs r0 p)); [eapply IH; eauto|].
-    destruct (negb (allowed cs r0 p)); [eapply IH; eauto|].
-    destruct (can_split cs r0 (trim_right p)); [|eapply IH; eauto].
-    destruct (has_suffix (to_lower (trim_right p)) (to_lower (r_ext r0))); [eexists; reflexivity | eapply IH; eauto].
+  cbn [serve]. rewrite (index_file_none _ _ c Hc Hcs).
+  destruct (stat_ok (trim_right p)) eqn:Hst; cbn [negb].
+  - (* the file exists: the extension test decides *)
+    rewrite Hc. assert (c =? SLASH = false) as -> by (apply N.eqb_neq; exact Hcs). cbn [orb].
+    destruct Hin as [-> | Hin].
+    + rewrite Hm, Ha, Hsplit, Hsuf. cbn [negb]. eexists; reflexivity.
+    + destruct (negb (rule_matches cs r0 p)); [eapply IH; eauto|].
+      destruct (negb (allowed cs r0 p)); [eapply IH; eauto|].
+      destruct (can_split cs r0 (trim_right p)); [|eapply IH; eauto].
+      destruct (has_suffix (to_lower (trim_right p)) (to_lower (r_ext r0))); [eexists; reflexivity | eapply IH; eauto].
+  - (* no such file: any rule that can split takes it *)
+    destruct Hin as [-> | Hin].
+    + rewrite Hm, Ha, Hsplit. cbn [negb]. eexists; reflexivity.
+    + destruct (negb (rule_matches cs r0 p)); [eapply IH; eauto|].
+      destruct (negb (allowed cs r0 p)); [eapply IH; eauto|].
+      destruct (can_split cs r0 (trim_right p)); [eexists; reflexivity | eapply IH; eauto].
 Qed.
 
 End DispatchProofs.
@@ -1131,4 +1138,56 @@ Proof.
   intros Hc Hv Hout Hm Hlen H.
   apply demux_complete in H; auto. destruct H as (-> & -> & ->).
   rewrite Hout. split; [apply parse_head_render; exact Hc | auto].
+Qed.
+
+(* ---- statements as they appear in C13_Props.v ---- *)
+Lemma records_wellformed ty id c rest :
+  ty < 256 -> id < 65536 -> len c <= 65535 ->
+  len (write_record ty id c) mod 8 = 0 /\
+  parse_record (write_record ty id c ++ rest) = Some (ty, id, c, rest).
+Proof. intros; split; [apply write_record_aligned | apply parse_write_record; assumption]. Qed.
+
+Lemma stream_concat ty id data rest :
+  ty < 256 -> id < 65536 ->
+  (forall c, In c (chunks (N.to_nat MAXW) data) -> c <> [] /\ len c <= MAXW) /\
+  concat (chunks (N.to_nat MAXW) data) = data /\
+  read_stream ty id (stream_wire ty id data ++ rest) = Some (data, rest).
+Proof.
+  intros Hty Hid. split; [intros c; apply stream_chunks_bounds|].
+  split; [apply chunks_concat, maxw_pos | apply stream_roundtrip; assumption].
+Qed.
+
+Lemma stream_reader_no_panic conn sizes : exists x, sr_read_all (sr_init conn) sizes [] = Ok x.
+Proof. apply sr_read_all_no_panic. Qed.
+
+Lemma serve_ext_dispatched_default stat_ok open_ok rules i p r :
+  In r rules -> rule_matches false r p = true -> allowed false r p = true ->
+  r_ext r <> [] -> last_byte (r_ext r) <> Some SLASH ->
+  to_lower (r_split r) = to_lower (r_ext r) ->
+  has_suffix (to_lower (trim_right p)) (to_lower (r_ext r)) = true ->
+  exists j, serve false stat_ok open_ok rules i p = ODispatch j (trim_right p).
+Proof.
+  intros. eapply serve_ext_dispatched; eauto. apply can_split_of_suffix; assumption.
+Qed.
+
+(* Go's [size |= 1<<31] on a uint32 is the addition used in the model *)
+Lemma lor_top_bit n : n < 2147483648 -> N.lor n 2147483648 = n + 2147483648.
+Proof.
+  intros Hn. change 2147483648 with (2 ^ 31) in *.
+  assert (Hland : N.land n (2 ^ 31) = 0).
+  { apply N.bits_inj_iff. intros m. rewrite N.land_spec, N.bits_0, N.pow2_bits_eqb.
+    destruct (N.eqb_spec 31 m) as [<-|Hne]; [|apply andb_false_r].
+    rewrite andb_true_r. destruct (N.eq_dec n 0) as [->|Hn0]; [apply N.bits_0|].
+    apply N.bits_above_log2. apply N.log2_lt_pow2; [lia | exact Hn]. }
+  rewrite <- N.lxor_lor by exact Hland. symmetry. apply N.add_nocarry_lxor. exact Hland.
+Qed.
+
+Lemma encode_size_is_go n :
+  127 < n -> n < 2147483648 ->
+  encode_size n = let m := N.lor n 2147483648 in
+                  [(m / 16777216) mod 256; (m / 65536) mod 256; (m / 256) mod 256; m mod 256].
+Proof.
+  intros H1 H2. unfold encode_size.
+  assert (n <=? 127 = false) as -> by lia. assert (n <? 2147483648 = true) as -> by lia.
+  rewrite lor_top_bit by exact H2. reflexivity.
 Qed.
